@@ -87,6 +87,7 @@ def _worker(wid, prop, root, tier, counter, n_worlds, deadline, outq, workdir, u
                 summ = run_world(spec, journal=journal, helper=helper)
                 summ["wall"] = time.time() - t0
                 summ["config"] = spec.get("config")
+                summ["recipe_class"] = recipe_class((spec["structures"].get("s0") or {}).get("meta"))
                 if summ["violation"] is None:
                     summ.pop("spec", None)
                 outq.put(summ)
@@ -100,6 +101,17 @@ def _worker(wid, prop, root, tier, counter, n_worlds, deadline, outq, workdir, u
         if helper is not None:
             helper.close()
         outq.put({"done": wid})
+
+
+def recipe_class(meta):
+    """Coarse class of a generated crystal / stack / monolayer recipe."""
+    if not meta or meta.get("family") not in ("crystal", "stack", "monolayer"):
+        return None
+    if meta["family"] == "crystal":
+        return "crystal:%s:%s:%s:L%s:%s" % (meta["material"], meta["kind"], meta["miller"], meta["layers"], "T" if meta["pbcz"] else "F")
+    if meta["family"] == "stack":
+        return "stack:%s%s:%s/%s" % (meta["lattice"], meta["facet"], meta["bottom"], meta["top"])
+    return "mono:%s" % meta["material"]
 
 
 # ---------------------------------------------------------------------------
@@ -207,7 +219,7 @@ def write_replay(prop, root, world, spec, violation, tag=""):
     return path
 
 
-def run_check(prop, tier, root, workers=None, worlds=None, wall=None, world_list=None, quiet=False, use_known=True, minimise_budget=None, evidence=True, digests_out=None):
+def run_check(prop, tier, root, workers=None, worlds=None, wall=None, world_list=None, quiet=False, use_known=True, minimise_budget=None, evidence=True, digests_out=None, survey=None):
     t_start = time.time()
     plan = dict(PLAN[tier][prop])
     if worlds is not None:
@@ -274,7 +286,7 @@ def run_check(prop, tier, root, workers=None, worlds=None, wall=None, world_list
     agg = dict(
         worlds=0, ops=0, stats=Counter(), probes=Counter(), fault_fired=Counter(), nontrivial=set(), schedules=set(),
         samples=[], logical_time=0, line_events=0, wall_worlds=0.0, digests={}, harness_errors=[], known_hits=Counter(),
-        fault_worlds=0, faultfree_worlds=0, discarded=Counter(), op_prefixes=set(),
+        fault_worlds=0, faultfree_worlds=0, discarded=Counter(), op_prefixes=set(), recipes=Counter(),
     )
     raw_violations = []
     done = set()
@@ -339,6 +351,15 @@ def run_check(prop, tier, root, workers=None, worlds=None, wall=None, world_list
         v = dict(property=prop, cls="CRASH", op_index=opi, op=op.get("op"), detail="process died with signal %d during op %d (%s phase)" % (-rc, opi, j.get("phase")),
                  signal=-rc, recipe=st.get("meta"), struct=struct_digest(st) if st else None)
         raw_violations.append({"world": j["world"], "violation": v, "spec": spec})
+
+    if survey:
+        with open(survey, "a") as f:
+            for msg in sorted(raw_violations, key=lambda m: m["world"]):
+                v = msg["violation"]
+                f.write(json.dumps({"seed": root, "tier": tier, "world": msg["world"], "violation": v, "known": bool(matches_known(v, known)),
+                                    "seedspec": (msg["spec"]["ops"][v["op_index"]].get("seedspec") if v.get("op_index") is not None and v["op_index"] < len(msg["spec"]["ops"]) else None)}, default=str) + "\n")
+            f.write(json.dumps({"seed": root, "tier": tier, "summary": True, "worlds": agg["worlds"], "ops": agg["ops"], "recipes": dict(agg["recipes"]), "violations": len(raw_violations)}) + "\n")
+        raw_violations = []
 
     # 4. classify / minimise / report
     reported_keys = set()
@@ -412,6 +433,8 @@ def _aggregate(agg, s):
         agg["faultfree_worlds"] += 1
     for k, v in (cfg.get("discarded") or {}).items():
         agg["discarded"][k] += v
+    if s.get("recipe_class"):
+        agg["recipes"][s["recipe_class"]] += 1
     if len(agg["samples"]) < 4:
         agg["samples"].extend(s.get("samples", [])[: 4 - len(agg["samples"])])
 
